@@ -32,6 +32,7 @@ TIMEOUT = {"quick": 600, "thorough": 5400}
 # (names with underscores, one of them extending another name: handler names
 #  are _handle_<component>_<Event> and the component part must be taken whole)
 NAMES = ["ca", "cb", "cc", "ca_x", "c_e"]
+FALSY_NAMES = ("cb", "c_e")
 
 
 class Mon (object):
@@ -93,6 +94,15 @@ class Rdv (object):
     self.Comp = Comp
     class Plain (object): pass
     self.Plain = Plain
+    # components whose truth value is False (an empty container-like object,
+    # as core.topology or a registered dict are in stock POX): "registered"
+    # is about the name, not about the object's truthiness
+    class EmptyComp (Comp):
+      def __len__ (self): return 0
+    class EmptyPlain (Plain):
+      def __len__ (self): return 0
+    self.EmptyComp = EmptyComp
+    self.EmptyPlain = EmptyPlain
     self.reg_clock = 0
 
   def have (self, n):
@@ -126,7 +136,11 @@ class Rdv (object):
 
   def do_reg (self, name, kind):
     if name in self.registered: return
-    obj = self.Comp() if kind == "events" else self.Plain()
+    if name in FALSY_NAMES:
+      obj = self.EmptyComp() if kind == "events" else self.EmptyPlain()
+      self.rep.count("falsy_components")
+    else:
+      obj = self.Comp() if kind == "events" else self.Plain()
     self.registered[name] = obj
     self.reg_clock += 1
     if self.depth > 0:
